@@ -42,8 +42,12 @@ def r_C05cde(root):
     loop = next((n for n in gp.body if isinstance(n, (ast.While, ast.For))), None)
     if loop is None: raise AnalysisError("get_parent_of_type: loop not found")
     pname = gp.args.args[1].arg
-    climbs = [n for n in cfg.nodes if n.kind == "stmt" and isinstance(n.ast, ast.Assign) and any(isinstance(x, ast.Name) and x.id == pname for x in n.ast.targets) and _u(n.ast.value) in (pname + ".parent", "getattr(%s,'parent',None)" % pname, "getattr(%s,'parent')" % pname)]
     rets = [n for n in cfg.nodes if n.kind == "return" and n.ast.value is not None and not (isinstance(n.ast.value, ast.Constant) and n.ast.value.value is None)]
+    # the cursor: the variable that is returned on success (the parameter itself, or a local initialised from it)
+    cur = next((n.ast.value.id for n in rets if isinstance(n.ast.value, ast.Name)), pname)
+    def _assigns(n): return n.kind == "stmt" and isinstance(n.ast, ast.Assign) and any(isinstance(x, ast.Name) and x.id == cur for x in n.ast.targets)
+    climbs = [n for n in cfg.nodes if _assigns(n) and _u(n.ast.value) in (cur + ".parent", "getattr(%s,'parent',None)" % cur, "getattr(%s,'parent')" % cur)]
+    inits = [n for n in cfg.nodes if _assigns(n) and cur != pname and _u(n.ast.value) == pname]
     if not climbs or not rets: raise AnalysisError("get_parent_of_type: climb/return not found")
     inst += 1
     bad = None
@@ -51,31 +55,45 @@ def r_C05cde(root):
         p = cfg.paths_avoiding(cfg.entry, r, lambda n: n in climbs)
         if p is not None: bad = r
     ob("C05", "C05.d", M, "get_parent_of_type", "climb precedes every success return", bad is None)
-    if bad is not None: out.append(Finding("C05", "C05.d", M, "get_parent_of_type", ast.unparse(bad.ast), "the start object itself can be returned: the type test is reachable before the first step to .parent", witness="Package containing Package: get_parent_of_type('Package', inner) must be the outer one"))
-    other = [n for n in cfg.nodes if n.kind == "stmt" and isinstance(n.ast, ast.Assign) and any(isinstance(x, ast.Name) and x.id == pname for x in n.ast.targets) and n not in climbs]
+    if bad is not None: out.append(Finding("C05", "C05.d", M, "get_parent_of_type", ast.unparse(bad.ast), "the start object itself can be returned: the type test is reachable before the first step to .parent", witness="Package inside Package, get_parent_of_type('Package', inner)"))
+    other = [n for n in cfg.nodes if _assigns(n) and n not in climbs and n not in inits]
     inst += 1
     ob("C05", "C05.d", M, "get_parent_of_type", "only .parent is climbed", not other)
     for n in other: out.append(Finding("C05", "C05.d", M, "get_parent_of_type", ast.unparse(n.ast), "the search moves along something else than the parent link"))
-    # ---- C05.e
+    # ---- C05.e  the name a class argument is converted to is the name the selector compares objects by
     for q in ("get_parent_of_type", "get_children_of_type"):
         fn = find_i(root, M, q); tn = fn.args.args[0].arg; inst += 1
-        norm = [n for n in own_nodes(fn) if isinstance(n, ast.Assign) and any(isinstance(x, ast.Name) and x.id == tn for x in n.targets) and not (isinstance(n.value, ast.Name) and n.value.id == tn)]
-        cmps = [n for n in ast.walk(fn) if isinstance(n, ast.Compare) and len(n.ops) == 1 and isinstance(n.ops[0], (ast.Eq, ast.NotEq)) and any(isinstance(x, ast.Name) and x.id == tn for x in [n.left] + n.comparators)]
-        if not cmps: raise AnalysisError("%s: type comparison not found" % q)
         def proj_obj(e):
             u = _u(e)
             if u.endswith(".__class__.__name__") or (u.startswith("type(") and u.endswith(").__name__")): return "__name__"
             if u.endswith("._tx_fqn") or u.endswith(".__class__._tx_fqn"): return "_tx_fqn"
-            return "?" + u
-        sides = [proj_obj(x) for c in cmps for x in [c.left] + c.comparators if not (isinstance(x, ast.Name) and x.id == tn)]
+            return None
+        # comparisons of an object's class name with the type key (a name: the parameter or a local derived from it)
+        cmps = []
+        for n in ast.walk(fn):
+            if isinstance(n, ast.Compare) and len(n.ops) == 1 and isinstance(n.ops[0], (ast.Eq, ast.NotEq)):
+                l, r = n.left, n.comparators[0]
+                for a, b in ((l, r), (r, l)):
+                    if isinstance(b, ast.Name) and not isinstance(a, ast.Name): cmps.append((n, a, b.id))
+        cmps = [(n, a, k) for n, a, k in cmps if k == tn or any(isinstance(d, ast.Assign) and any(isinstance(x, ast.Name) and x.id == k for x in d.targets) and tn in {y.id for y in ast.walk(d.value) if isinstance(y, ast.Name)} for d in ast.walk(fn))]
+        if not cmps: raise AnalysisError("%s: type comparison not found" % q)
+        key = cmps[0][2]
+        sides = [proj_obj(a) or ("?" + _u(a)) for _n, a, _k in cmps]
+        # how a class argument becomes the key: assignments to the key, the non-identity branches of conditional expressions
+        projs = []
+        for d in own_nodes(fn):
+            if isinstance(d, ast.Assign) and any(isinstance(x, ast.Name) and x.id == key for x in d.targets):
+                vals = [d.value.body, d.value.orelse] if isinstance(d.value, ast.IfExp) else [d.value]
+                for v in vals:
+                    if isinstance(v, ast.Name) and v.id == tn: continue
+                    u = _u(v)
+                    projs.append((d, "__name__" if u == tn + ".__name__" else ("_tx_fqn" if u.endswith("._tx_fqn") and "getattr" not in u else "?" + u)))
         okc = True
-        for a in norm:
-            u = _u(a.value)
-            pr = "__name__" if u == tn + ".__name__" else ("_tx_fqn" if u.endswith("._tx_fqn") and "getattr" not in u else "?" + u)
-            if any(s != pr for s in sides):
+        for d, pr in projs:
+            if any(s_ != pr for s_ in sides):
                 okc = False
-                out.append(Finding("C05", "C05.e", M, q, ast.unparse(a), "a class argument is normalised to %s but objects are compared by %s: for classes whose two names differ (grammar loaded from a file / imported grammar) nothing is found" % (pr.lstrip("?"), sides[0].lstrip("?")), witness="metamodel_from_file + get_children_of_type(mm['Thing'], model)"))
-        if not norm:
+                out.append(Finding("C05", "C05.e", M, q, ast.unparse(d), "a class argument is normalised to %s but objects are compared by %s: for classes whose two names differ (grammar loaded from a file / imported grammar) nothing is found" % (pr.lstrip("?"), sorted(set(sides))[0].lstrip("?")), witness="grammar loaded from a file: get_children_of_type(mm['Rule'], model)"))
+        if not projs:
             okc = False; out.append(Finding("C05", "C05.e", M, q, tn, "a class passed as type argument is never converted to the name the selector compares"))
         ob("C05", "C05.e", M, q, "type argument normalisation vs selector projection", okc)
     return inst, out
